@@ -79,7 +79,7 @@ def fldOf (j : Json) : Fld :=
 def itemOf (j : Json) : Item :=
   { file := charsD j "file", kind := charsD j "kind", name := charsD j "name", vis := charsD j "vis", ser := boolD j "ser", de := boolD j "de",
     val := boolD j "val", bare := namesD j "bare", fields := (listD j "fields").map fldOf, variants := namesD j "variants",
-    evstream := boolD j "evstream", intoResp := boolD j "intoResp", params := namesD j "params", bytesBody := boolD j "bytesBody", optBody := boolD j "optBody" }
+    evstream := boolD j "evstream", respEnum := boolD j "respEnum", intoResp := boolD j "intoResp", params := namesD j "params", bytesBody := boolD j "bytesBody", optBody := boolD j "optBody" }
 
 def objLists (j : Json) : List (Comp.Name × List Comp.Name) :=
   match j.getObj? with
@@ -111,7 +111,7 @@ def violStr : Viol → String
   | .aliasCycle it => s!"type alias {String.ofList it} expands to itself"
   | .missingImport n => s!"derive({String.ofList n}) is used unqualified but not imported"
 
-def whyOf (m : Mod) : String := ", ".intercalate ((violations m).map violStr |>.take 4)
+def whyOf (m : Mod) : String := ", ".intercalate ((violations m).map violStr |>.eraseDups |>.take 6)
 
 def genOp : Handler := fun req => do
   let inp ← field req "in"
